@@ -59,6 +59,8 @@ const (
 	siteEth       = 7
 	siteDecoder   = 12 // panic in a decoder / reader goroutine that was not recovered
 	siteKnock     = 13 // panic in the knock detector goroutine
+	siteICMP      = 14 // panic in icmp.Parse
+	siteUDP       = 15 // panic in udp.Unmarshal
 	siteUnknown   = 90
 )
 
@@ -87,6 +89,10 @@ func classify(stack string, rec string) int {
 			return siteUnknown // some other index expression of the parser
 		}
 		return siteTCPShort
+	case has("icmp.Parse"):
+		return siteICMP
+	case has("udp.Unmarshal"):
+		return siteUDP
 	case has("arp.(*Frame).Unmarshal"):
 		return siteARP
 	case has("ethernet.(*Frame).Unmarshal"):
@@ -930,7 +936,7 @@ func childMain(path string) {
 // shrinkDeath: the history killed the child; try every frame alone (followed by the
 // probe).  Only histories of plain frames are shrunk.
 func shrinkDeath(in HistIn, scratch string, id int) (HistIn, HistObs, bool) {
-	if in.Rep > 0 || len(in.Steps) > 0 || in.QuietMs > 0 || len(in.Frames) < 3 || len(in.Frames) > 200 {
+	if in.Rep > 0 || len(in.Steps) > 0 || in.QuietMs > 0 || len(in.Frames) < 3 || len(in.Frames) > 300 {
 		return in, HistObs{}, false
 	}
 	probe := in.Frames[len(in.Frames)-1]
@@ -1350,6 +1356,7 @@ func main() {
 		}
 	} else {
 		pins = genParse(r, o.Tier)
+		pins = append(pins, icmpParseSweep(r, o.Tier)...)
 		hins = append(hins, corpusHists("inject")...)
 		hins = append(hins, corpusHists("loop")...)
 		nh := 200
@@ -1377,6 +1384,7 @@ func main() {
 		batch := 24
 		hins = append(hins, udpDecoderHists(r, o.Tier, batch)...)
 		hins = append(hins, tcpDecoderHists(r, o.Tier)...)
+		hins = append(hins, sweepHists(r, o.Tier)...)
 		sizes := []int{1, 1023, 1024, 1025, 5000}
 		hins = append(hins, scanHist("tcp", sizes, 1), scanHist("udp", sizes, 2))
 		if o.Tier == "thorough" {
@@ -1514,6 +1522,9 @@ func main() {
 			kind = "flood-" + in.Mode
 		} else if in.Compact {
 			kind = "scan-" + in.Mode
+		} else if strings.HasPrefix(in.Note, "sweep-") {
+			kind = "sweep-" + in.Mode
+			hdist["sweep-frames"] += len(in.Frames) - 1
 		} else if strings.HasPrefix(in.Note, "decoder-") {
 			kind = in.Note[:11] + "-" + in.Mode // decoder-udp / decoder-tcp
 		} else if len(in.Steps) > 0 {
